@@ -196,6 +196,8 @@ ReportedIsSuspended == \A t \in Threads : (is[t].on /\ ~is[t].running /\ ~is[t].
 \* stopping all threads leaves nobody suspended
 \* arriving from another line at an active breakpoint always suspends
 BreakpointsSuspend == missed = {}
+\* stopping all threads releases every suspended one: directly after the command no thread waits
+StopReleasesAll == [][(\E t \in Threads : is'[t].cmd = "Kill" /\ is[t].cmd # "Kill") => (\A t \in Threads : pc'[t] # "waiting")]_vars
 \* behaviour export for the follow mode: the history is printed when nothing can happen any more
 Export == (~ENABLED Next) => PrintT(<<"BEHAVIOUR", ToJson(hist)>>)
 \* the same for the behaviour which loses a wake-up (found variant): replayed on the real code
